@@ -27,7 +27,7 @@ RULE = ('Two program families: multi-file layout programs whose included files l
 ASSUMPTIONS = ['all paths on the command line are absolute and identical across the compared runs, so that listings may '
                'print them']
 SHARD_MIN = 4
-BUDGET = {'quick': 64, 'thorough': 4000}
+BUDGET = {'quick': 96, 'thorough': 4000}
 LEVEL_TEXT = ('Exploration by re-execution: the only source of run-to-run variation is set/dict iteration order and the '
               'environment, so the same generated input is re-run in fresh interpreters under different hash seeds and '
               'environments and every observable output is compared byte for byte.')
@@ -39,13 +39,36 @@ SEEDS_THOROUGH = ['0', '1', '2', '3', '4', '5', '6', '7', '12345', '4294967295']
 
 @st.composite
 def _cases(draw, tier):
-    fmt = draw(st.sampled_from(['listing', 'hex', 'intel_hex', 'minhex']))
+    fmt = draw(st.sampled_from(['listing', 'listing', 'listing', 'hex', 'intel_hex', 'minhex']))
+    if draw(st.integers(0, 5)) == 0:
+        # vocabulary stress: a dotted mnemonic whose head and tail are mnemonics too, in a drawn configuration order
+        head, tail = draw(st.sampled_from([('ld', 'b'), ('op', 'w'), ('mov', 'x2'), ('st', 'st')]))
+        names = draw(st.permutations([head + '.' + tail, head, tail, 'nop', 'inc']))
+        instrs = {}
+        for i, n in enumerate(names):
+            instrs.setdefault(n, {'bytecode': {'value': i + 1, 'size': 8},
+                                  'operands': {'count': 1, 'operand_sets': {'list': ['imm']}}} if n != 'nop' else
+                              {'bytecode': {'value': 0, 'size': 8}})
+        cfg = {'general': {'address_size': 16, 'endian': 'big', 'registers': ['a', 'hl', 'x']},
+               'operand_sets': {'imm': {'operand_values': {'i': {'type': 'numeric', 'argument': {'size': 8, 'byte_align': True}}}}},
+               'instructions': instrs}
+        lines = []
+        for _ in range(draw(st.integers(1, 4))):
+            n = draw(st.sampled_from([x for x in names if x != 'nop']))
+            lines.append(f'{n} {draw(st.integers(0, 255))}')
+        return {'kind': 'vocab', 'isa': cfg, 'source': '\n'.join(lines) + '\nnop\n', 'fmt': fmt}
     if draw(st.integers(0, 2)) == 0:
         # single statement under a fully generated ISA
         from . import c01
         c = draw(c01._cases(tier))
         if 'skip' in c:
             return {'skip': c['skip']}
+        # a vocabulary in which one mnemonic is another one up to a dot and the rest is a mnemonic too (ld / ld.b / b)
+        for mn in list(c['isa']['instructions']):
+            if '.' in mn and draw(st.booleans()):
+                head, tail = mn.split('.', 1)
+                for extra in (head, tail):
+                    c['isa']['instructions'].setdefault(extra, {'bytecode': {'value': 1, 'size': 8}})
         return {'kind': 'stmt', 'c01': c, 'fmt': fmt}
     cfg = draw(G.layout_isa(zones=True, blocks=True, address_sizes=(8, 12, 16, 16)))
     b, feats = G.general_program(draw, cfg, max_steps=16, extra=['include', 'include', 'include'])
@@ -54,6 +77,14 @@ def _cases(draw, tier):
         if it['t'] == 'include':
             dirs[it['file']] = draw(st.sampled_from(['src', 'inc_a', 'inc_b', 'inc_a']))
     twist = draw(st.sampled_from([None, None, 'symlink', 'symlink', 'ambiguous', 'missing']))
+    if twist == 'symlink':
+        # the include directory is reachable under two names: make sure something is included from it, and look
+        # at the format that prints file names
+        if not dirs:
+            b.items.append({'t': 'include', 'file': 'extra.asm', 'items': [{'t': 'comment', 'text': 'nothing here'}]})
+            dirs['extra.asm'] = 'inc_a'
+        dirs = {k: 'inc_a' for k in dirs}
+        fmt = 'listing'
     return {'kind': 'prog', 'isa': cfg, 'items': b.items, 'dirs': dirs, 'twist': twist, 'fmt': fmt,
             'iorder': draw(st.permutations(['inc_a', 'inc_b', 'inc_c']))}
 
@@ -75,7 +106,13 @@ def execute(case, ctx):
         return Outcome(classes=['skipped'], evals=0)
     tier = (ctx or {}).get('tier', 'quick')
     seeds = SEEDS_THOROUGH if tier == 'thorough' else SEEDS_QUICK
-    if case['kind'] == 'stmt':
+    if case['kind'] == 'vocab':
+        cfg = case['isa']
+        fname, text = isagen.dump_isa(cfg, 'yaml')
+        files = {'src/main.asm': case['source'], fname: text}
+        idirs = []
+        rich = True
+    elif case['kind'] == 'stmt':
         from . import c01
         c = case['c01']
         cfg = isagen.fix_int_keys(copy.deepcopy(c['isa']))
